@@ -106,6 +106,9 @@ def check_op(ctx, h, r):
                 if b is None or want_v is None:
                     ctx.count("skipped:reference")
                     return
+                if ref is not None and ep.value_as_tree(ref.text.decode()) == want_v:
+                    ctx.count("reference-overwritten-by-name")
+                    return  # the requested value is itself a name and now stands at the path
                 if ref is None:
                     val = b.child_by_field_name("expression")
                 else:
